@@ -80,11 +80,29 @@ def body(chk, db, cfgname):
     L = enclosing_loops(g, C)
     pops = {"WorkerStack": 0, "JobStack": 0}
     if L:
-        for j, n in g.walk(g.nodes[L[0]]["body"]):
-            if n["k"] == "call" and strip_targs(n.get("cname") or "") == "std::stack::pop":
-                ok_ = gctx.key(n["obj"])
-                if ok_[0] == "field" and g.cfg.pos1(j) and g.cfg.dominates(g.cfg.pos1(C), g.cfg.pos1(j)) and g.cfg.pos1(j)[0] == g.cfg.pos1(C)[0]:
-                    pops[ok_[1].split("::")[-1]] = pops.get(ok_[1].split("::")[-1], 0) + 1
+        # per path through one iteration (body and, for a for-loop, its increment): one pop of each stack, after the order
+        from pv import paths as P_
+        hdr, plist = P_.loop_body_paths(g, L[0])
+        per_path = []
+        for path in plist:
+            ids = P_.nodes_on_path(g, path[1:])
+            if C not in ids:
+                continue
+            cnt = {"WorkerStack": 0, "JobStack": 0}
+            for j in ids[ids.index(C) + 1:]:
+                n = g.nodes[j]
+                if n["k"] == "call" and strip_targs(n.get("cname") or "") == "std::stack::pop":
+                    ok_ = gctx.key(n["obj"])
+                    if ok_[0] == "field":
+                        cnt[ok_[1].split("::")[-1]] = cnt.get(ok_[1].split("::")[-1], 0) + 1
+            early = [j for j in ids[:ids.index(C)] if g.nodes[j]["k"] == "call" and strip_targs(g.nodes[j].get("cname") or "") == "std::stack::pop"]
+            if early:
+                cnt["popped-before-the-order"] = len(early)
+            per_path.append(cnt)
+        if per_path and all(c_ == per_path[0] for c_ in per_path):
+            pops = per_path[0]
+        elif per_path:
+            pops = {"paths disagree": 1}
     if ne_w and ne_j and tops and pops == {"WorkerStack": 1, "JobStack": 1}:
         r1.ok(site, g.loc(C), "under both stacks non-empty: order_worker(WorkerStack.top(), JobStack.top()), then exactly one pop of each", cfgname)
     else:
